@@ -346,7 +346,29 @@ fn parse_rules(schema: &str) -> Vec<RuleLine> {
   // span lines; a literal may even contain a line break)
   let mut logical: Vec<String> = Vec::new();
   for line in schema.lines() {
-    let line = line.split(';').next().unwrap_or("");
+    // a ';' starts a comment only outside text ("..") and byte-string ('..') literals
+    let mut cut = line.len();
+    let mut quote: Option<char> = None;
+    let mut prev = ' ';
+    for (i, c) in line.char_indices() {
+      match quote {
+        Some(q) => {
+          if c == q && prev != '\\' {
+            quote = None;
+          }
+        }
+        None => {
+          if c == '"' || c == '\'' {
+            quote = Some(c);
+          } else if c == ';' {
+            cut = i;
+            break;
+          }
+        }
+      }
+      prev = c;
+    }
+    let line = &line[..cut];
     if starts_rule(line) || logical.is_empty() {
       logical.push(line.to_string());
     } else {
@@ -374,6 +396,7 @@ fn parse_rules(schema: &str) -> Vec<RuleLine> {
     let mut mediated: Vec<String> = Vec::new();
     let mut depth = 0i32;
     let mut in_str = false;
+    let mut quote_char = '"';
     let mut cur = String::new();
     let mut self_applied = false;
     let mut generic_stack: Vec<String> = Vec::new();
@@ -384,7 +407,7 @@ fn parse_rules(schema: &str) -> Vec<RuleLine> {
     while i <= cs.len() {
       let c = if i < cs.len() { cs[i] } else { ' ' };
       if in_str {
-        if c == '"' && (i == 0 || cs[i - 1] != '\\') {
+        if c == quote_char && (i == 0 || cs[i - 1] != '\\') {
           in_str = false;
         }
         i += 1;
@@ -426,7 +449,10 @@ fn parse_rules(schema: &str) -> Vec<RuleLine> {
           cur.clear();
         }
         match c {
-          '"' => in_str = true,
+          '"' | '\'' => {
+            in_str = true;
+            quote_char = c;
+          }
           '[' | '{' => depth += 1,
           ']' | '}' => depth -= 1,
           // a parenthesis guards only when it is a group with member keys (it then consumes a map entry);
